@@ -99,9 +99,17 @@ def setopPaginate (limit offset : Option Nat) : Doc :=
   (match limit with | some n => limitDoc false n | none => []) ++
   (match offset with | some 0 => [] | some m => offsetDoc false m | none => [])
 
+/-- split a document after `n` characters of its text (a piece cut in two becomes raw text) -/
+def splitDoc : Nat → Doc → Doc × Doc
+  | _, [] => ([], [])
+  | n, p :: ps =>
+      if n = 0 then ([], p :: ps)
+      else if p.text.length ≤ n then ((p :: (splitDoc (n - p.text.length) ps).1), (splitDoc (n - p.text.length) ps).2)
+      else ([.raw (p.text.take n)], .raw (p.text.drop n) :: ps)
+
 /-- Vertica's hint splice on the finished text: `sql[:7] + hint + sql[6:]` -/
-def verticaSplice (hint : Str) (sql : Str) : Str :=
-  sql.take 7 ++ "/*+label(".toList ++ hint ++ ")*/".toList ++ sql.drop 6
+def verticaSplice (hint : Str) (d : Doc) : Doc :=
+  (splitDoc 7 d).1 ++ [.raw ("/*+label(".toList ++ hint ++ ")*/".toList)] ++ (splitDoc 6 d).2
 
 def optDoc {α} (o : Option α) (f : α → Doc) : Doc := match o with | some a => f a | none => []
 
@@ -459,7 +467,7 @@ mutual
             joinDocs (K ",") (renderL { kd with subquery := false, withNamespace := updateTable.isSome, withAlias := true } returns))
       else if fl.cls = .vertica then
         (match fl.hint with
-         | some h => [Piece.raw (verticaSplice h (flatten core))]
+         | some h => verticaSplice h core
          | none => core)
       else core
 
